@@ -9,7 +9,7 @@ from sa.selftest import _copy_sources
 
 rev = sys.argv[1]
 jobs = []
-if sys.argv[2] in ('--round2', '--round3', '--round4'):
+if sys.argv[2] in ('--round2', '--round3', '--round4', '--round5'):
     rnd = int(sys.argv[2][-1])
     for n in range(1, 21):
         for k in (1, 2, 3):
